@@ -44,7 +44,7 @@ CLAUSES = {
     1: ("representation", None), 2: ("value", None), 3: ("value", "result_not_wellformed_sparse"),
     4: ("value", "mixed_fills_not_rejected"),
     11: ("value", "gcxs_joiner_axis_None"), 12: ("value", "extract_input_not_COO"),
-    15: ("value", "diagonal_nonsquare"), 16: ("value", "diagonal_negative_axis"),
+    15: ("value", "diagonal_nonsquare"),
     18: ("value", "concatenate_axis_None_DOK_member"), 19: ("value", "stack_0d_non_COO_member"),
 }
 
@@ -170,8 +170,6 @@ def py_clause(c):
         sh = c["x"]["shape"]
         if sh[c["axis1"]] != sh[c["axis2"]]:
             return "diagonal_nonsquare"
-        if min(c["axis1"], c["axis2"]) < 0:
-            return "diagonal_negative_axis"
     return None
 
 
@@ -311,6 +309,12 @@ def extract_cases(tier, rng):
                         cases.append({"op": "diagonal", "offset": off,
                                       "axis1": a1 - nd if (neg and rng.random() < 0.5) else a1,
                                       "axis2": a2 - nd if neg else a2, "x": x})
+    # equal axes (both spellings): NumPy raises ValueError
+    for nd in (2, 3):
+        for a in range(nd):
+            x = _member(rng, [2] * nd, "coo", 0)
+            for a2 in (a, a - nd):
+                cases.append({"op": "diagonal", "offset": rng.choice([-1, 0, 1]), "axis1": a, "axis2": a2, "x": x})
     # diagonalize: every axis incl. negative
     for nd in (1, 2, 3):
         for _ in range(4 * reps):
@@ -526,6 +530,7 @@ def campaign(build, tier, seed, report, budget=1):
             sq = c["x"]["shape"][c["axis1"]] == c["x"]["shape"][c["axis2"]]
             t += ("/offset<0" if c["offset"] < 0 else "/offset>=0") + ("" if sq else "/nonsquare") + \
                  ("/negative-axis" if min(c["axis1"], c["axis2"]) < 0 else "") + \
+                 ("/same-axis" if (c["axis1"] - c["axis2"]) % len(c["x"]["shape"]) == 0 else "") + \
                  ("/axis1>axis2" if c["axis1"] % len(c["x"]["shape"]) > c["axis2"] % len(c["x"]["shape"]) else "")
         if c["op"] == "take":
             t += "/int" if not isinstance(c["ind"], list) else "/list"
